@@ -10,6 +10,7 @@ import EaselModel.Msa.LemmasC2W
 import EaselModel.Msa.LemmasSsCols
 import EaselModel.Msa.LemmasNoPk
 import EaselModel.Msa.LemmasC2WSimple
+import EaselModel.Msa.LemmasFull
 /-! # C15 — alignment transformations keep the alignment well formed and the residues intact; WUSS round trips
 
 Property theorems only; proofs are glue on the lemmas of `EaselModel/Msa/Lemmas*.lean`.
@@ -425,6 +426,11 @@ theorem removeBroken_rejects_unbalanced (ss : Bytes) (useme : List Bool) (h : wu
 theorem ct2wuss_shape (simple : Bool) (ct : List Nat) (ss : Bytes) (h : ct2wussGen simple ct = .ok ss) :
     ss.length = ct.length - 1 ∧ ∀ c ∈ ss, c ≠ 0 :=
   ct2wussGen_shape simple ct ss h
+
+/-- `esl_wuss_full` on a balanced WUSS string without pseudoknot letters: succeeds, same length, same pair table -/
+theorem wussFull_nopk (ss : Bytes) (hnl : ∀ c ∈ ss, isAlpha c = false) (ct : List Nat) (h : wuss2ct ss = some ct) :
+    ∃ full, wussFull ss = .ok full ∧ full.length = ss.length ∧ wuss2ct full = some ct :=
+  wussFull_nopk' ss hnl ct h
 
 /-- `esl_wuss_reverse` is an involution on every string -/
 theorem wussReverse_involutive (ss : Bytes) : wussReverse (wussReverse ss) = ss :=
